@@ -364,7 +364,7 @@ def run(ctx, res):
         spec = c06e.gen_case(ctx.rng)
         check_connect(ctx, spec, res, ctx.n(4, 6))
     # the package's own callback components, with callbacks that count their calls, under all listings
-    for _ in range(ctx.n(40, 600)):
+    for _ in range(ctx.n(40, 300)):
         c = pkgorder.gen(ctx.rng)
         res.case(c, True)
         res.count("part", "pkg-components")
